@@ -409,6 +409,58 @@ def normalise_generics(j):
     return keymap
 
 
+CANON_ADT_MODULE = {
+    'Sender': '', 'Receiver': '', 'AsyncSender': '', 'AsyncReceiver': '',
+    'ChannelInternal': 'internal', 'Signal': 'signal', 'SignalTerminator': 'signal', 'KanalWaker': 'signal',
+    'KanalPtr': 'pointer', 'RawMutexLock': 'mutex', 'FutureState': 'future', 'SendFuture': 'future', 'ReceiveFuture': 'future',
+    'ReceiveStream': 'future', 'SendError': 'error', 'SendErrorTimeout': 'error', 'ReceiveError': 'error',
+    'ReceiveErrorTimeout': 'error', 'CloseError': 'error',
+}
+CANON_PUBLIC_FN = ('bounded', 'unbounded', 'bounded_async', 'unbounded_async')
+
+
+def normalise_modules(j):
+    """the public types and constructors may be moved into other (private) modules and re-exported: the def paths the rules
+    use are the pinned ones; an item found under another module path is renamed back (type names are unique in the crate)"""
+    ren = []  # (actual path, canonical path)
+    seen = {}
+    for a in j['adts']:
+        nm = a['name'].split('::')[-1]
+        seen.setdefault(nm, []).append(a['name'])
+    for nm, paths in seen.items():
+        if nm in CANON_ADT_MODULE and len(paths) == 1:
+            want = (CANON_ADT_MODULE[nm] + '::' + nm) if CANON_ADT_MODULE[nm] else nm
+            if paths[0] != want:
+                ren.append((paths[0], want))
+    keys = {b['key'] for b in j['bodies']}
+    for f in CANON_PUBLIC_FN:
+        if f not in keys:
+            c = [k for k in keys if k.endswith('::' + f) and k.count('::') >= 1 and '<' not in k and '{' not in k]
+            c = [k for k in c if any(b['key'] == k and b.get('vis') == 'Public' for b in j['bodies'])]
+            if len(c) == 1:
+                ren.append((c[0], f))
+    if not ren:
+        return []
+    pats = [(re.compile(r'(?<![A-Za-z0-9_:])%s(?![A-Za-z0-9_])' % re.escape(o)), n) for o, n in sorted(ren, key=lambda x: -len(x[0]))]
+
+    def walk(v, key=None):
+        if isinstance(v, str):
+            if key in ('at', 'span', 'val', 'dbg'):
+                return v
+            for pat, n in pats:
+                v = pat.sub(n, v)
+            return v
+        if isinstance(v, list):
+            return [walk(i, key) for i in v]
+        if isinstance(v, dict):
+            return {k: walk(i, k) for k, i in v.items()}
+        return v
+
+    for k in ('bodies', 'adts', 'impls'):
+        j[k] = walk(j[k])
+    return ren
+
+
 FORWARD_ALSO = ['<mutex::RawMutexLock as lock_api::RawMutex>::try_lock', '<mutex::RawMutexLock as lock_api::RawMutex>::unlock']
 
 
@@ -521,6 +573,10 @@ def collapse_forwarders(j):
 
 def resolve(j):
     """returns {actual key: canonical key}; rewrites j in place"""
+    try:
+        normalise_modules(j)
+    except Exception:
+        pass
     try:
         normalise_generics(j)
     except Exception:
